@@ -108,7 +108,13 @@ def r1(run):
                         to_err = to_err or any(rb in reach and strip(e)[0] == "call" and strip(e)[1].fn.endswith("from_residual") for (rb, e, raw) in ec.return_defs())
                     if to_err:
                         layers.append(bb)
-            run.ob(MOD + "::execute_command|worker-result-propagated", len(layers) >= 2, sb.sp,
+            # `spawn_blocking(..).await?` as the tail expression hands the worker's own Result to the caller unchanged
+            passthrough = False
+            for (rb, e, raw) in ec.return_defs():
+                x = strip(e)
+                if x[0] == "field" and isinstance(x[1], tuple) and x[1][0] == "downcast" and x[1][2] == "Continue" and any(q.same_call(cc, sb) for cc in q.calls_in(x)):
+                    passthrough = True
+            run.ob(MOD + "::execute_command|worker-result-propagated", len(layers) >= 2 or (len(layers) >= 1 and passthrough), sb.sp,
                    "both the join error and the worker's own Err are propagated to the caller (%d `?` layer(s) on the awaited task): a failure before the terminal event is never swallowed" % len(layers),
                    reason="call-without-terminal-event")
     # dispatcher: Err from execute_command => exactly one .error
